@@ -34,25 +34,25 @@ CHECKS = {
    note="Trusted: meta-theorem (lock discipline ⇒ linearizable), kernel atomicity of openat(O_EXCL)/linkat/unlinkat/renameat/write/pread, gosym lock monitor. Schedules not enumerated.",
    tech="symbolic execution + lock-discipline VCs, -race replay"),
  "C16": dict(cat="model_checking", ref="§4 C16",
-   text="UInt64ToString for all 2^64 values (fork over the 20 digit counts; digits-only, no leading zero, value round-trip, injectivity decided by z3); MapClear on ≤3 symbolic entries under every iteration order at two instantiations; Assume/Assert for both booleans; WaitTimeout's delegation contract (called once with the caller's cond and unscaled timeout) for all timeouts.",
-   note="fmt.Sprintf is an intrinsic (canonical decimal by fresh digit variables): the check decides that the real code formats x itself, not fmt's correctness. Real-time bounds of WaitTimeout are not claimed (primitive.WaitTimeout is stubbed).",
+   text="UInt64ToString for all 2^64 values (fork over the 20 digit counts; digits-only, no leading zero, value round-trip decided by z3; injectivity in thorough); MapClear on ≤3 symbolic entries under every iteration order at two instantiations; Assume/Assert for both booleans; WaitTimeout: (a) contract of the delegate (called once with the caller's cond and unscaled timeout, returns for every timeout when nobody signals — a non-delegating implementation is judged by behaviour only), (b) the REAL body of primitive.WaitTimeout (goroutine + select on a timer that fires at a nondeterministic but eventual moment) explored under the scheduler over all schedules in three scenarios (no signaller, an earlier waiter on the same cond, a signaller): it always returns and holds the lock on return.",
+   note="fmt.Sprintf/strconv are intrinsics (canonical decimal by fresh digit variables): the check decides that the real code formats x itself with a decimal verb. Real-time bounds of WaitTimeout ('no later than', 'promptly') are not expressible and not claimed.",
    tech="symbolic execution of go/ssa + SMT (z3), native replay"),
  "C04": dict(cat="model_checking", ref="§4 C04",
-   text="Ordering/emission kernel: the real Ctx.Decls (depTracker, DFS closure, declsOrError) runs over dummy declaration nodes with Ctx.maybeDecls replaced by a stub that reports names and dependencies dictated by a symbolic structure: every directed dependency relation on N ≤ 3/4 declarations (cycles included), an unresolvable dependency, every split over ≤ 2 files. Obligations: each declaration translated and emitted exactly once; for acyclic relations every dependency precedes its dependant. [A translation-validation corpus for reference-site recording and naming is added when the GooseLang loader lands.]",
-   note="Partial: decides the ordering kernel, not that the translator records a dependency at every reference site (maybeDecls is stubbed). Trusted: gosym, z3.",
-   tech="symbolic execution of go/ssa with function override, exhaustive fork over dependency graphs"),
+   text="Two parts. (1) Ordering/emission kernel: the real Ctx.Decls (depTracker, DFS closure, declsOrError) runs over dummy declaration nodes with Ctx.maybeDecls replaced by a stub reporting names and dependencies dictated by a symbolic structure: every directed dependency relation on N ≤ 3/4 declarations (cycles included), an unresolvable dependency, every split over ≤ 2 files; each declaration is translated and emitted exactly once and, for acyclic relations, every dependency precedes its dependant. (2) Reference-site recording and naming: a corpus of 29 reference kinds (calls, methods on value/pointer, method values, struct literals, new, field reads/writes/refs through pointers, deref load/store, types in signatures/vars/slices/maps/fields, named types, aliases, constants, globals, function values, recursion, name collisions) × 4 layouts (user first, provider first, two files in both name orders) plus the C01 corpus is translated by the real goose; a Coq-scoping loader applied to the emitted file decides defined-before-use (cyclic dependencies exempt), distinct names and self reference through the rec binder; a declaration census requires every Go declaration to appear under its documented name. Found and fixed: no dependency recorded at struct.storeF/store/load/fieldRef/alloc sites; known finding: T__m name collision.",
+   note="maybeDecls is stubbed in the kernel part; reference-site recording is decided for the corpus's reference kinds only. Trusted: gosym, z3, the GooseLang parser/loader.",
+   tech="symbolic execution with function override over all dependency graphs + Coq-scoping loader on a generated corpus translated by the real goose"),
  "C05": dict(cat="model_checking", ref="§4 C05",
    text="Printer kernels on symbolic text: the real AddComment / CommentDecl / LoggingStmt / FuncDecl / ConstDecl / StructDecl printing, and the real basicLiteral / panic-message guards driven with a symbolic constant, run on every byte string up to the bound; the oracle is a reference Coq lexer (nested comments, strings inside comments) evaluated as one symbolic path, and z3 decides 'exactly one balanced comment, no open string' and 'rejected or preserved byte-for-byte'; -typecheck/comment flags leave the definition bytes unchanged. Found and fixed: odd quotes in comments, newline in string literals, quotes in panic messages.",
    note="Text ≤ 4 (quick) / 6 (thorough) bytes; Coq's lexing rules as encoded by the reference lexer are trusted; expression-nesting/precedence is part of the C01 translation validation, not of this kernel.",
    tech="symbolic execution of go/ssa on symbolic strings + SMT, reference-lexer oracle, native replay"),
  "C06": dict(cat="model_checking", ref="§4 C06",
-   text="Partial: the kernels that order output are functions of their input — Decls run twice under independently chosen map-iteration orders (the executor makes map order an explicit nondeterministic choice) must give identical bytes; sortedFiles is permutation-invariant on 3 concrete and 2 fully symbolic file names.",
-   note="NOT claimed: determinism of the whole tool (translator proper inside concurrent workers, GOMAXPROCS, go/packages), data-race freedom of the workers.",
-   tech="symbolic execution with nondeterministic map order, permutation invariance + SMT"),
+   text="Partial. (a) Ordering kernels are functions of their input: Decls run twice under independently chosen map-iteration orders (map order is an explicit nondeterministic choice of the executor) gives identical bytes; sortedFiles is permutation-invariant on concrete and fully symbolic file names. (b) The real TranslatePackages worker skeleton (goroutine per package, wait group; packages.Load stubbed to 2–3 minimal packages so translatePackage → NewPkgCtx → getFfi → sortedFiles → Decls → ffiHeaderFooter really run in each worker) is explored under the cooperative scheduler over all schedules with a vector-clock happens-before race check on every memory cell: no data race, slot i belongs to package i, results equal the sequential ones. (c) Auxiliary, NOT solver-decided: the real goose binary translates three inter-dependent packages alone, together, in both orders and repeatedly; all emitted files must be byte-identical.",
+   note="NOT claimed: determinism of the whole tool for arbitrary packages, GOMAXPROCS, go/packages; state shared below maybeDecls is reached only by the auxiliary differential (c).",
+   tech="symbolic execution with nondeterministic map order; scheduler exploration with happens-before race check; auxiliary differential on the real binary"),
  "C07": dict(cat="model_checking", ref="§4 C07",
-   text="Partial: error containment and aggregation — real declsOrError / Decls / errorReporter.prefixed / MultipleErrors over a symbolic failure pattern (each declaration ok, one of the five documented categories, or a foreign panic): exactly one structured, located error per failing declaration in source order with its own category and Pos/End, every other declaration still emitted, foreign panics not swallowed.",
-   note="NOT claimed: that the translator never panics on arbitrary type-correct Go (totality over programs is not encodable); maybeDecls is stubbed.",
-   tech="symbolic execution of go/ssa with function override, exhaustive fork over failure patterns"),
+   text="Partial. (1) Error containment and aggregation kernel: real declsOrError / Decls / errorReporter.prefixed / MultipleErrors over a symbolic failure pattern (each declaration ok, one of the five documented categories, or a foreign panic): exactly one structured, located error per failing declaration in source order with its own category and Pos/End, every other declaration still emitted, foreign panics not swallowed. (2) Totality on the generated corpora: the real goose runs on the C02 look-alike catalogue and the C01 corpus (~500 declarations incl. generics, channels, float constants, iota groups); goose must exit 0/1 (a crash is isolated to one declaration by splitting the package), every declaration must be emitted under its documented name or covered by an error, and every error must have a documented category and a position inside a declaration. Found and fixed: nil-scope crash on methods of instantiated generic types.",
+   note="NOT claimed: that the translator never panics on arbitrary type-correct Go (totality over programs is not encodable); claimed on the kernel and on the enumerated corpora.",
+   tech="symbolic execution with function override over failure patterns + declaration census on corpora translated by the real goose"),
  "C08": dict(cat="model_checking", ref="§4 C08",
    text="pathToCoqPath / ImportToPath / ImportDecl.CoqDecl on every valid import path up to 4 (6) symbolic bytes (z3 decides the byte-wise '.'/'-'→'_' mapping and the logical path); PrintImports on import multisets; File.Write layout; the real getFfi on every acyclic import graph of root+3 (4) packages over a pool containing all five FFI keys against the 'walk stops at FFI' oracle; ffiHeaderFooter; Ctx.imports on import specs (renamed ⇒ refused, builtin ⇒ nothing, trusted_* ⇒ trusted). Found and fixed: Require line used the unmapped last segment.",
    note="bytealg kernels are intrinsics; go/printer stubbed for error text. A package reaching two FFIs makes getFfi panic: counted as 'refused' here.",
@@ -73,6 +73,10 @@ CHECKS = {
    text="Same pipeline on a catalogue of ~130 out-of-subset / look-alike constructs (assignment operators, operators, slice forms, literals, statement kinds, control-flow shapes, integer types, interface uses, extra builtin arguments, user functions named like builtins), one per host function; per declaration the obligation is the property's disjunction: goose reports a conversion error located in that declaration, or the emitted definition is equivalent to Go on all inputs within the C01 bounds; a goose crash or malformed output satisfies neither (a crashing package is split to isolate the declaration). Found and fixed 8 defects (builtins recognised by spelling, multi-argument append, string slicing crash, copy from string, variadic calls, interface{} printed as a Definition, comma-ok type assertion, parameterless method values); 1 known finding.",
    note="As C01. User packages named like FFI packages are not covered (the emitted text is identical; only Coq's name resolution differs).",
    tech="translation validation: symbolic execution of Go SSA vs GooseLang evaluator + SMT (z3)"),
+ "C03": dict(cat="translation_validation", ref="§4 C03",
+   text="16 race-free concurrent templates (spawn+join, captured variables read and written, mutex counter, last writer wins, condvar hand-off, broadcast to two waiters, two Adds, goroutine bodies ending in if / with trailing statements / a single call, go as last statement of a block, lock protecting two cells, WaitTimeout with a signaller, Sleep) with a symbolic uint64 argument are translated by the real goose. The Go function (from go/ssa) and the emitted GooseLang definition (evaluator with Fork, lock.*, lock.cond*, waitgroup.*) are each explored under a cooperative scheduler over ALL interleavings at synchronisation points; every complete path yields (path condition, result) and z3 decides over the symbolic argument: every Go outcome is a GooseLang outcome; if the Go result is schedule-independent, every complete GooseLang interleaving yields it and none deadlocks or gets stuck. A template goose rejects is a violation.",
+   note="Interleavings are ENUMERATED by the executor (sound at synchronisation points for data-race-free programs), ≤ 3 threads, ≤ 20 000 / 200 000 interleavings per side, timed waits may return at any moment (≤ 3 timeouts per run); the primitives' meaning on both sides is the Go meaning (trusted). GooseLang's 'racy access is stuck' rule is not modelled.",
+   tech="scheduler exploration of Go SSA and GooseLang evaluator, outcome-set inclusion decided by SMT (z3)"),
 }
 NOT_YET = {}
 for i in range(1, 19):
